@@ -1,11 +1,16 @@
 """C10 — HPACK encoder and decoder stay in sync."""
-from .. import core, tables
+from .. import core, tables, hpackrules
 
+EXHAUSTIVE = True
 EXPLANATION = (
-    "Decided part is thin: table agreement and ordering facts. R1: the encoder's static index (index_static), the "
-    "decoder's static table (get_static) and RFC 7541 Appendix A agree on all 61 rows; R5: the Huffman ENCODE_TABLE equals "
-    "Appendix B on all 257 rows; R2-R4: representation prefixes agree between encoder, decoder and RFC, size updates are "
-    "emitted first and within the allowance, a header block is HPACK-encoded once. decode(encode(h)) = h is NOT decided."
+    "Decided part is thin: table and prefix agreement plus ordering facts. R1: the encoder's static index "
+    "(index_static), the decoder's static table (get_static) and RFC 7541 Appendix A agree on all 61 rows; R2: every "
+    "(prefix bits, first byte) the encoder passes to encode_int is the RFC 7541 section 6 pattern of its representation, "
+    "the decoder's Representation::load agrees with section 6 on all 256 first bytes (exhaustive abstract interpretation) "
+    "and reads each representation with the matching prefix; sensitive values use the never-indexed form; R3: a size "
+    "change is signalled before any field, each signal is paired with the resize, min before max, within the allowance; "
+    "R4: a header block is HPACK-encoded once (CONTINUATION only copies bytes); R5: the Huffman ENCODE_TABLE equals "
+    "Appendix B on all 257 rows. decode(encode(h)) = h is NOT decided."
 )
 NOT_DECIDED = "decode(encode(h)) = h; consistency of the robin-hood index under eviction; that the dynamic table size never exceeds the limit"
 
@@ -14,5 +19,13 @@ def run(ctx):
     F = ctx.facts
     r = ctx.rule('C10.R1', 'TABLE', 'index_static (encoder) = get_static (decoder) = RFC 7541 Appendix A')
     tables.static_table_rules(r, F, which=('get', 'index'))
+    r = ctx.rule('C10.R2', 'TABLE', 'representation prefixes: encoder constants = RFC 7541 §6 = decoder (Representation::load exhaustive over 256 bytes)')
+    hpackrules.representation_table(r, F)
+    hpackrules.encoder_prefixes(r, F)
+    hpackrules.decoder_prefixes(r, F)
+    r = ctx.rule('C10.R3', 'GUARD', 'a table size change is signalled first, paired with the resize, within the allowance')
+    hpackrules.size_update_order(r, F)
+    r = ctx.rule('C10.R4', 'WHO', 'a header block is HPACK-encoded once')
+    hpackrules.encode_once(r, F)
     r = ctx.rule('C10.R5', 'TABLE', 'Huffman ENCODE_TABLE = RFC 7541 Appendix B (257 rows)')
     tables.huffman_encode_rule(r, F)
